@@ -36,6 +36,30 @@ NEEDS = {
  "C15-m2": ("clear() no longer resets the byte counter", "truncate(0) on a never-purged log with non-empty payloads resident"),
  "C16-m1": ("read() clamps `to` to last+1 after the inverted-range guard", "read(from, _) with from >= last + 2 on a log that has held an entry"),
  "C16-m2": ("purge computes a closed chunk's last index as next_log_index(last) - 1", "oldest closed chunk closed while the log held no entry (votes only, or after truncate(0)), then a purge"),
+ "C01-r2m1": ("purge removes every covered closed chunk (retain) instead of the covered prefix only", "truncate + lower-term re-append with a rotation between, a purge between the two closing indexes, flush, restart"),
+ "C01-r2m2": ("purge fast path skips a purge that lies below the stored entries", "first append at a non-zero index leaving a hole of >= 2 indexes, a purge strictly inside the hole"),
+ "C02-r2m1": ("purge picks obsolete chunks with a filter and removes a middle chunk", "non-monotonic closing indexes (truncate), purge, flush, clean restart"),
+ "C02-r2m2": ("OffsetReader counts requested bytes instead of bytes read", "a short read during replay: read_buffer_size smaller than a chunk file on the reopening run"),
+ "C03-r2m1": ("flush() sends RemoveChunks before the Write request", "purge obsoleting a closed chunk, power loss between the worker's unlink and its fdatasync"),
+ "C03-r2m2": ("open() drops a newest chunk that holds only its head State record", "a PurgeUpto that fills its chunk, covering every closed chunk; restart before anything else is written"),
+ "C04-r2m1": ("the batch is written with one write_vectored whose byte count is never checked", "a short write in the middle of a batch"),
+ "C04-r2m2": ("the sync error is moved out for the first callback; later callbacks of the batch get Ok", ">= 2 callback-carrying flushes in one worker batch whose fdatasync fails"),
+ "C05-r2m1": ("trailing-zero scan capped at 64 KiB", "a zero tail longer than 64 KiB at the end of the newest chunk"),
+ "C05-r2m2": ("purge picks obsolete chunks with a filter instead of an oldest-first prefix", "non-monotonic closing indexes (truncate across a chunk boundary), purge, flush, restart"),
+ "C07-r2m1": ("open() moves the eviction boundary whenever it replays a State record", "a State record (save_user_data) in the middle of the newest chunk, clean restart, tiny cache, eviction before the first flush"),
+ "C07-r2m2": ("DumpRaftLogIter moves payloads out of the snapshot's cache copy", "iterating the same dump_data() snapshot twice"),
+ "C08-r2m1": ("a failed chunk removal is retried later instead of stopping the worker", "an unlink failure for a chunk that is not the youngest of its removal list"),
+ "C08-r2m2": ("RemoveChunks is handled at once while a write batch is being collected", "RemoveChunks picked up in the same queue sweep as the flush's Write, then a crash or sync failure of that batch"),
+ "C10-r2m1": ("decode errors of State.user_data lose their ErrorKind (UnexpectedEof becomes InvalidData)", "torn last record is a State record cut inside its user_data bytes / option tag"),
+ "C10-r2m2": ("a 0-byte newest chunk is no longer removed and re-created", "newest chunk file of length exactly 0, then an append (or another record + purge + restart)"),
+ "C11-r2m1": ("purge picks obsolete chunks with a filter: a middle chunk is deleted", "truncate journalled in a later chunk, purge between the closing indexes, flush"),
+ "C11-r2m2": ("the worker drops one queued write when a batch reaches its cap; queue grown to 4096", ">= 1025 write requests queued against a busy / parked worker"),
+ "C13-r2m1": ("Drop waits at most 1 s for the worker, then releases the directory lock", "worker stalled > 1 s at drop with work queued, reopen before the queue drains"),
+ "C13-r2m2": ("Dump takes a read-only lock that is no lock when the LOCK file is absent", "a directory without LOCK file when the Dump opens it, then another opener"),
+ "C14-r2m1": ("removal batches of more than 4 paths are unlinked by a detached helper thread", "a purge obsoleting >= 5 chunks in one flush, ack, drop, immediate reopen"),
+ "C14-r2m2": ("purged chunk files are unlinked newest-first (pop)", "an unlink error or a crash between two unlinks of one removal batch"),
+ "C15-r2m1": ("the eviction pass is capped at 32 entries per insert", "one insert owing more than 32 evictions (many pinned entries, boundary jumps over all of them)"),
+ "C15-r2m2": ("eviction deferred to the end of an append batch and skipped on its error path", "multi-entry batch with a refused tail under a binding limit with evictable entries resident"),
 }
 
 def main():
